@@ -156,12 +156,32 @@ def describe(v):
                 return ('id', t[1])
             if t[0] == 'neg' and isinstance(t[1], tuple) and t[1][0] == 'in':
                 return ('neg', t[1][1])
+            if t[0] == 'index':
+                return ('index', t[1], t[2])
         return ('top',)
     return ('top',)
 
 
-def obtained_at(desc, xs, out_bits):
+def eval_term(t, xs):
+    k = t[0]
+    if k == 'in':
+        return xs[t[1]]
+    if k == 'zext':
+        return eval_term(t[1], xs) & mask(t[2])
+    if k == 'sext':
+        return to_signed(eval_term(t[1], xs), t[2]) & mask(t[3])
+    if k == 'trunc':
+        return eval_term(t[1], xs) & mask(t[2])
+    if k == 'neg':
+        return -eval_term(t[1], xs)
+    raise ValueError(t)
+
+
+def obtained_at(desc, xs, out_bits, tables=None):
     k = desc[0]
+    if k == 'index':
+        i = eval_term(desc[2], xs)
+        return tables[desc[1]][i] & mask(out_bits)
     if k == 'const':
         return desc[1] & mask(out_bits)
     if k == 'id':
@@ -188,14 +208,15 @@ def fmt_cell(cell):
 
 
 def run_cells(ctx, prog, rule, fn_label, path, mkargs, cellsets, spec, out_bits, gargs=None, interp=None,
-              panic_is_violation=True, max_product=6000, exempt_panic=None):
+              panic_is_violation=True, max_product=6000, exempt_panic=None, exhaustive_limit=0):
     """evaluate `path` on the product of `cellsets` (one list of (lo,hi) per argument).
     mkargs(cell_tuple) -> abstract argument list.  spec(xs) -> expected output bits, or None (excluded).
     Returns statistics dict."""
     import itertools
     I = interp or Interp(prog)
     stats = {'cells': 0, 'decided_const': 0, 'decided_id': 0, 'decided_neg': 0, 'general_path': 0, 'undecided': 0,
-             'panic': 0, 'budget': 0, 'witnesses': 0, 'excluded': 0, 'unsupported': 0}
+             'panic': 0, 'budget': 0, 'witnesses': 0, 'excluded': 0, 'unsupported': 0, 'points': 0, 'points_decided': 0,
+             'points_checked_exhaustively': 0, 'decided_index': 0}
     prod = 1
     for cs in cellsets:
         prod *= len(cs)
@@ -209,13 +230,25 @@ def run_cells(ctx, prog, rule, fn_label, path, mkargs, cellsets, spec, out_bits,
             stats['unsupported'] += 1
             ctx.undecided.setdefault('unsupported', []).append('%s %s: %s: %s' % (fn_label, fmt_cell(cell), type(e).__name__, e))
             continue
-        wits = list(itertools.product(*[witnesses(lo, hi, 5 if len(cell) > 1 else 9) for lo, hi in cell]))
+        size = 1
+        for lo, hi in cell:
+            size *= (hi - lo + 1)
+        stats['points'] += size
+        if size <= exhaustive_limit:
+            wits = list(itertools.product(*[range(lo, hi + 1) for lo, hi in cell]))
+            exhaustive = True
+        else:
+            wits = list(itertools.product(*[witnesses(lo, hi, 5 if len(cell) > 1 else 9) for lo, hi in cell]))
+            exhaustive = False
         if out.kind == 'return':
             desc = describe(out.value)
             if desc[0] == 'top' or desc[0] == 'tuple':
                 stats['general_path'] += 1
                 continue
             stats['decided_' + desc[0]] += 1
+            stats['points_decided'] += size
+            if exhaustive:
+                stats['points_checked_exhaustively'] += size
             bad = None
             nchk = 0
             for xs in wits:
@@ -224,7 +257,7 @@ def run_cells(ctx, prog, rule, fn_label, path, mkargs, cellsets, spec, out_bits,
                     stats['excluded'] += 1
                     continue
                 nchk += 1
-                got = obtained_at(desc, xs, out_bits)
+                got = obtained_at(desc, xs, out_bits, I.tables)
                 if got != (exp & mask(out_bits)):
                     bad = (xs, exp, got)
                     break
